@@ -147,6 +147,7 @@ type CtxSpec struct {
 	Step        int    `json:"step,omitempty"`
 	HostCall    int    `json:"hostCall,omitempty"` // k>0: while the k-th host call of the run is blocking
 	AfterReturn bool   `json:"afterReturn,omitempty"`
+	Wrap        bool   `json:"wrap,omitempty"` // hand the call a context.WithValue wrapper of the context
 }
 
 // Fault is an injected fault bound to a task's n-th run (Run counts runs of that task from 0).
